@@ -275,6 +275,14 @@ def systematic_cases() -> list[dict[str, Any]]:
             c["slow"] = True
 
         add([f"hedge_h{hedges}_m{mult}"], fn8, paths=("parallel",))
+    # the original request for a chunk is slow and every hedge for it fails while the original is still pending
+    for hedges in (4, 5):
+        add(
+            [f"hedge_h{hedges}_hedges_fail"],
+            lambda c, m, p, hedges=hedges: (fn8(c, m, p, hedges, 2.0), c["obj"]["range"].update(slow={"0": 1.6, "8192": 0.25, "16384": 0.45, "24576": 0.65, "32768": 0.85}, fail_later=[0])),
+            paths=("parallel",),
+            modes=("head",),
+        )
     add(["hedge_slow_then_fail"], lambda c, m, p: (fn8(c, m, p), c["obj"]["range"].update(fail_first=[8192])), paths=("parallel",), modes=("head",))
     add(["stall_timeout"], lambda c, m, p: (c["cfg"].update(timeout_seconds=0.4), c["obj"].update(get={"pre_delay": 1.2}), c.update(slow=True)), paths=("single",), modes=("head",))
     # -- pre-signed probe answers -------------------------------------------------
@@ -633,14 +641,32 @@ def run_shard(job: dict[str, Any]) -> dict[str, Any]:
             took_parallel = sum(1 for e in log if e.get("kind") == "RANGE") > 0
             dup_ranges = 0
             seen_ranges: set[tuple[str, str]] = set()
+            dup_any = 0  # repeated requests for one range whatever the answer was (a refused hedge is still a hedge)
+            seen_any: set[tuple[str, str]] = set()
             for e in log:
+                if e.get("kind") == "RANGE":
+                    key_any = (e["path"], e["headers"].get("range", ""))
+                    if key_any in seen_any:
+                        dup_any += 1
+                    seen_any.add(key_any)
                 if e.get("kind") == "RANGE" and e.get("status") == 206:
                     key = (e["path"], e["headers"].get("range", ""))
                     if key in seen_ranges:
                         dup_ranges += 1
                     seen_ranges.add(key)
-            if dup_ranges and not any("redirect" in f for f in case["faults"]):
+            if (dup_ranges or dup_any) and not any("redirect" in f for f in case["faults"]):
                 chk.hit("hedge_or_retry_duplicate_range_observed")
+                # repeated requests for one range come from hedging only (a failed chunk fails the fetch): their number
+                # is bounded by max_speculative_hedges per attempt (documented: 0 = unlimited, i.e. one hedge per chunk)
+                msh = int(cfgd.get("max_speculative_hedges", 4))
+                nchunks = -(-int(case["body"]["size"]) // max(1, int(cfgd["chunk_size_bytes"])))
+                # 0 is documented as "unlimited": then every chunk can still be hedged at most once
+                if dup_any > attempts * (msh if msh > 0 else nchunks):
+                    chk.violation(
+                        "hedge_requests_exceed_max_speculative_hedges",
+                        f"{dup_any} repeated range requests in one fetch with max_speculative_hedges={cfgd.get('max_speculative_hedges')}",
+                        {"case": {k: case[k] for k in ("id", "cfg", "faults")}, "obj": case["obj"], "repeated_range_requests": dup_any, "attempts": attempts},
+                    )
                 if any(e.get("slowed") for e in log) and attempts == 1:
                     chk.hit("hedge_observed")
             red = case["obj"].get("redirect") or {}
